@@ -55,10 +55,10 @@ impl<const P: u128> ops::Sub<FiniteField<P>> for FiniteField<P> {
     type Output = FiniteField<P>;
 
     fn sub(self, rhs: FiniteField<P>) -> Self::Output {
-        FiniteField::new(if self.v > rhs.v {
+        FiniteField::new(if self.v >= rhs.v {
             self.v - rhs.v
         } else {
-            rhs.v - self.v
+            P - (rhs.v - self.v)
         })
     }
 }
